@@ -162,32 +162,48 @@ _S = s_scalar()                                # None, ints -3..6, 5 floats, 5 s
 _TWINS = st.sampled_from([1, 1.0, 2, 2.0, 0, 0.0, 2.5])
 
 
-def _column(n, key_like):
-    """strategy for one column of n cells. key_like columns are biased to heavy duplication."""
-    pool = st.lists(_S, min_size=2 if key_like else 1, max_size=4).flatmap(lambda p: st.lists(st.sampled_from(p), min_size=n, max_size=n))
-    homog = st.sampled_from([st.integers(0, 2), st.sampled_from(['a', 'b', 'ab']), _TWINS, s_dt(3),
-                             st.one_of(st.none(), st.integers(0, 1)), st.one_of(st.sampled_from(['a', 'b']), st.integers(0, 1))]) \
-        .flatmap(lambda s: st.lists(s, min_size=n, max_size=n))
-    free = st.lists(_S, min_size=n, max_size=n)
-    unique = st.permutations(list(range(n)))
-    if key_like:
-        return st.one_of(pool, pool, homog, homog, free)
-    return st.one_of(pool, homog, free, free, unique, unique)
+_HOMOG = [st.integers(0, 2), st.sampled_from(['a', 'b', 'ab']), _TWINS, s_dt(3),
+          st.one_of(st.none(), st.integers(0, 1)), st.one_of(st.sampled_from(['a', 'b']), st.integers(0, 1))]
+
+
+def _cells(draw, key_like):
+    """
+    draws the cell strategy of one column (or None for a column of distinct ints). key columns are biased to heavy duplication:
+    a small pool of 2-4 mixed-type values, a narrow homogeneous universe (incl. int/float twins), or the whole universe S.
+    """
+    kind = draw(st.sampled_from(['pool', 'pool', 'homog', 'homog', 'free'] if key_like else ['pool', 'homog', 'free', 'free', 'unique', 'unique']))
+    if kind == 'pool':
+        return st.sampled_from(draw(st.lists(_S, min_size=2 if key_like else 1, max_size=4)))
+    if kind == 'homog':
+        return draw(st.sampled_from(_HOMOG))
+    if kind == 'free':
+        return _S
+    return None
+
+
+def _rows(draw, strategies, lo, top):
+    """a list of rows (so that rows are what shrinks away), returned as columns; None strategy = distinct scrambled ints"""
+    n_min = draw(st.sampled_from([3, 6, 2, lo]))          # hypothesis favours (and shrinks to) the first choice: make that a useful size
+    rows = draw(st.lists(st.tuples(*[s if s is not None else st.none() for s in strategies]), min_size=n_min, max_size=top))
+    columns = []
+    for j, s in enumerate(strategies):
+        if s is None:
+            columns.append([(i * 7 + 3) % 17 for i in range(len(rows))])      # distinct for < 17 rows, not monotone
+        else:
+            columns.append([r[j] for r in rows])
+    return columns
 
 
 @st.composite
 def _regroup_case(draw, tier, with_grp=False):
     big = tier == 'thorough'
     top = 14 if big else 9
-    n = draw(st.one_of(st.integers(0, top), st.integers(4, top)))
     ncols = draw(st.integers(2, 5 if big else 4))
     cols = list(draw(st.permutations(_COLS))[:ncols])
     nby = draw(st.integers(1, ncols - 1))
     by = list(draw(st.permutations(cols))[:nby])
-    data = {}
-    for c in cols:
-        data[c] = list(draw(_column(top, c in by)))[:n]      # drawn at full length and cut, so that the row count shrinks on its own
-    spec = dict(cols=cols, data=data, by=by, form=draw(st.sampled_from(['names', 'list'])))
+    columns = _rows(draw, [_cells(draw, c in by) for c in cols], 0, top)
+    spec = dict(cols=cols, data=dict(zip(cols, columns)), by=by, form=draw(st.sampled_from(['names', 'list'])))
     if with_grp:
         spec['grp'] = draw(st.sampled_from(['grp', 'grp', 'g']))
     return spec
@@ -360,21 +376,18 @@ def _spec_eq(a, b):
 def _pivot_case(draw, tier):
     big = tier == 'thorough'
     top = 14 if big else 9
-    n = draw(st.one_of(st.integers(1, top), st.integers(4, top)))
     nx = draw(st.integers(1, 2))
     extra = draw(st.integers(0, 1))
     cols = list(draw(st.permutations(_COLS))[:nx + 2 + extra])
     x, y, z = cols[:nx], cols[nx], cols[nx + 1]
     agg = draw(st.sampled_from(['none', 'last', 'sum', 'len']))
     ykind = draw(st.sampled_from(['str', 'int', 'dt', 'float', 'mixed', 'mixed']))
-    data = {}
-    for c in x:
-        data[c] = list(draw(_column(top, True)))[:n]
-    ypool = draw(st.lists(_Y_KINDS[ykind], min_size=1, max_size=4).filter(lambda p: len(p) > 1) | st.lists(_Y_KINDS[ykind], min_size=1, max_size=4))
-    data[y] = draw(st.lists(st.sampled_from(ypool), min_size=top, max_size=top))[:n]
-    data[z] = draw(st.lists(_Z_NUM if agg == 'sum' else st.one_of(_Z_ANY, _Z_NUM), min_size=top, max_size=top))[:n]
-    for c in cols[nx + 2:]:
-        data[c] = list(draw(_column(top, False)))[:n]
+    ypool = draw(st.lists(_Y_KINDS[ykind], min_size=draw(st.sampled_from([1, 2, 2])), max_size=4))
+    strategies = [_cells(draw, True) for c in x] + [st.sampled_from(ypool), _Z_NUM if agg == 'sum' else st.one_of(_Z_ANY, _Z_NUM)] \
+        + [_cells(draw, False) for c in cols[nx + 2:]]
+    columns = _rows(draw, strategies, 1, top)
+    data = dict(zip(cols, columns))
+    n = len(columns[0])
     if draw(st.integers(0, 3)) == 0:
         # unique (x, y) pairs by construction: keep the first row of every pair
         keep = []
@@ -498,17 +511,18 @@ SUBS = [
              'oracle: nested-loop grouping of the spec; listby has exactly one row per distinct key, other cells list the key\'s values in row order; '
              'unlist = contiguous key blocks, each the key\'s rows in original order, blocks increasing under cmp (and natively where comparable). '
              'non-trivial = some key with >= 2 rows and >= 2 distinct keys',
-        floor=0.3, class_floors={'mixed_type_key': 0.15, 'int_and_float_key': 0.03, 'order_visible': 0.2, 'reordered': 0.2, 'nkeys=2': 0.1}),
+        floor=0.2, class_floors={'mixed_type_key': 0.15, 'int_and_float_key': 0.03, 'order_visible': 0.2, 'reordered': 0.2, 'nkeys=2': 0.1, 'all_keys_unique': 0.05, 'empty': 0.005}),
     Sub('groupby_ungroup', lambda tier: _regroup_case(tier, with_grp=True), run_groupby, quick=4000, thorough=25000,
         rule='same tables and keys as listby_unlist, default and custom grp column name. oracle: one row per distinct key, each sub-table holds exactly '
              'the other columns of the key\'s rows in row order, sizes add up to len(d), ungroup() has the original columns and the original multiset '
              'of rows (key cells by ==, other cells by type and value). non-trivial = some key with >= 2 rows and >= 2 distinct keys',
-        floor=0.3, class_floors={'mixed_type_key': 0.15, 'single_and_multi_row_groups': 0.15, 'grp=g': 0.1}),
+        floor=0.2, class_floors={'mixed_type_key': 0.15, 'single_and_multi_row_groups': 0.15, 'grp=g': 0.1, 'all_keys_unique': 0.05, 'empty': 0.005}),
     Sub('pivot_unpivot', lambda tier: _pivot_case(tier), run_pivot, quick=4000, thorough=25000,
         rule='non-empty tables of 1-9 rows (thorough 1-14), x = 1-2 mixed-type key columns, y = strings | ints | floats | datetimes | a mix of strings, ints and datetimes, '
              'z non-None, optional bystander column, agg in None/last/sum/len, a quarter of the cases with unique (x, y) pairs by construction. '
              'oracle: nested-loop model {(x key, y value): z values in row order}; pivot rows <-> distinct x keys and label columns <-> distinct y values '
              'are bijections, every cell = agg(values) or None; unpivot minus None cells = one row per (x, y) with the aggregated z (multiset). '
              'non-trivial = >= 2 x keys and >= 2 y values and (an aggregated duplicate or a None cell)',
-        floor=0.3, class_floors={'dup_xy': 0.2, 'unique_xy': 0.2, 'none_cell': 0.3, 'mixed_type_key': 0.15, 'nx=2': 0.2}),
+        floor=0.2, class_floors={'dup_xy': 0.2, 'unique_xy': 0.2, 'none_cell': 0.3, 'mixed_type_key': 0.15, 'nx=2': 0.2, 'agg=none': 0.1, 'agg=last': 0.1, 'agg=sum': 0.1, 'agg=len': 0.1,
+                                 'y=str': 0.05, 'y=int': 0.05, 'y=float': 0.05, 'y=dt': 0.05, 'y=mixed': 0.1}),
 ]
